@@ -193,6 +193,7 @@ type grabbed struct {
 	fd, peer int
 	ino      uint64
 	at       time.Time
+	pending  bool // the bytes were written into the pair
 }
 
 func (r *recorder) grab(fd int) {
@@ -210,9 +211,11 @@ func (r *recorder) grab(fd int) {
 	_ = unix.Fstat(p[0], &st)
 	r.emit("ForeignOpen", "fd", p[0], "grab", p[0] == fd)
 	r.emit("ForeignOpen", "fd", p[1])
-	_, _ = unix.Write(p[1], []byte(grabPending))
+	// (this runs on the loop's thread: in the fault-injection lives the write below may itself be the call strace
+	// fails -- then the pair simply has no bytes to watch over)
+	n, werr := unix.Write(p[1], []byte(grabPending))
 	r.gmu.Lock()
-	r.held = append(r.held, grabbed{p[0], p[1], st.Ino, time.Now()})
+	r.held = append(r.held, grabbed{p[0], p[1], st.Ino, time.Now(), werr == nil && n == len(grabPending)})
 	r.gmu.Unlock()
 }
 
@@ -235,7 +238,7 @@ func (r *recorder) releaseGrabbed(age time.Duration) {
 		buf := make([]byte, 64)
 		if err := unix.Fstat(g.fd, &st); err != nil || st.Ino != g.ino {
 			why = "identity"
-		} else if n, _, err := unix.Recvfrom(g.fd, buf, unix.MSG_PEEK|unix.MSG_DONTWAIT); err != nil || string(buf[:n]) != grabPending {
+		} else if n, _, err := unix.Recvfrom(g.fd, buf, unix.MSG_PEEK|unix.MSG_DONTWAIT); g.pending && (err != nil || string(buf[:n]) != grabPending) {
 			why = "pending bytes were consumed"
 		} else if m, _, err := unix.Recvfrom(g.peer, buf, unix.MSG_PEEK|unix.MSG_DONTWAIT); err == nil && m > 0 {
 			why = "somebody wrote into it"
